@@ -354,9 +354,11 @@ Proof.
     + intros j Hj. apply Keep; [now apply C2|]. cbn. reflexivity.
     + intros L' k HL Hk Hm. destruct (C3 L' k HL Hk Hm) as [P|P]; [|now right].
       destruct (gc_removes Ent Hsh st s (KHash (mkT L' (k / 256) (k mod 256)))) eqn:R.
-      * right. cbn in R. apply andb_true_iff in R. destruct R as [_ R]. apply N.ltb_lt in R.
-        pose proof (p256_pos (S L')).
-        assert (s / p256 (S L') <= mN / p256 (S L')) by (apply N.div_le_mono; lia). lia.
+      * right. cbn [Model.gc_removes tc_L tc_N tc_W] in R.
+        apply andb_true_iff in R. destruct R as [_ R]. apply N.ltb_lt in R.
+        pose proof (p256_pos (S L')) as PP.
+        eapply N.lt_le_trans; [exact R|]. apply N.div_le_mono; [|exact Hs].
+        intro Z. rewrite Z in PP. now apply N.lt_irrefl in PP.
       * left. now apply Keep.
   - (* the cut at nextEntry *)
     intro Z. destruct (D Z) as [P1 P2]. split; apply Keep; try assumption; cbn.
